@@ -9,3 +9,4 @@ def check(rep, tier):
     rep.run(tracer_trace.run, rep, tier)
     from contracts import programs_exact
     rep.run(programs_exact.run_nest, rep)
+    rep.run(tracer_ftba.run_unbounded, rep, tier)
